@@ -1,5 +1,6 @@
 """Container-level model, raw-tree auditor and history interpreter (C06-C09, C15, C17, C20)."""
 import json
+import copy
 import os
 import shutil
 import uuid as uuidlib
@@ -378,7 +379,7 @@ def container_ops(self_move=False, node_forms=True):
         st.tuples(st.just("setattr"), ctgt, st.sampled_from(["k", "u"]), cvalue),
         st.tuples(st.just("delattr"), ctgt, cref),
         st.tuples(st.just("mcopy"), cref, ctgt, dpath, st.booleans(), st.booleans(),
-                  st.sampled_from(["str", "str", "node_src", "group_dst", "group_dst_name"] if node_forms else ["str"])),
+                  st.sampled_from(["str", "str", "node_src", "group_dst", "group_dst_name", "group_dst_name_none"] if node_forms else ["str"])),
         st.tuples(st.just("mcopy"), cref, ctgt, dpath, st.just(False), st.booleans(), st.just("str")),
         st.tuples(st.just("move"), cref, ctgt, dpath), st.tuples(st.just("move"), cref, ctgt, dpath),
         st.tuples(st.just("replace"), cref, st.sampled_from(["g", "d"]), cvalue),
@@ -395,7 +396,7 @@ def container_ops(self_move=False, node_forms=True):
                     st.tuples(st.just("copy_root"), fresh, st.booleans()), st.just(("flush",)), st.tuples(st.just("move_root"), cref, fresh),
                     st.integers(0, len(POOL) - 1).flatmap(lambda i: st.tuples(
                         st.just("stale"), ctgt, st.just(i), G.model_recipe(pool_class(i)[3], 1, dates="date", objects=False))),
-                    st.tuples(st.just("set_node"), cref, fresh, st.sampled_from(["node", "raw", "dtype"])))
+                    st.tuples(st.just("set_node"), cref, fresh, st.sampled_from(["node", "raw", "dtype", "data", "data"])))
     # a patch that consists of exactly one small change (between two boundaries)
     one = st.one_of(st.tuples(st.just("setattr"), st.just("/"), st.sampled_from(["k", "u"]), cvalue),
                     st.tuples(st.just("delattr"), st.just("/"), cref),
@@ -408,7 +409,7 @@ def container_ops(self_move=False, node_forms=True):
     extra.append(st.tuples(st.just("move_into_self"), ctgt, st.sampled_from(["inner", "x/y", "g"])))
     cpmv = st.one_of(
         st.tuples(st.just("mcopy"), cref, cref, dpath, st.booleans(), st.booleans(),
-                  st.sampled_from(["str", "str", "node_src", "group_dst", "group_dst_name"] if node_forms else ["str"])),
+                  st.sampled_from(["str", "str", "node_src", "group_dst", "group_dst_name", "group_dst_name_none"] if node_forms else ["str"])),
         st.tuples(st.just("move"), cref, cref, dpath))
     gcn = st.tuples(st.just("gcopy_nometa"), cref, fresh, st.sampled_from(["", "", "del_original", "del_copy"]))
     return st.one_of(data, data, meta, meta, meta, cpmv, cpmv, gcn, bnd, solo, *extra)
@@ -629,7 +630,7 @@ class CSession:
             groups = tree.paths("g")
             recv = groups[recv_i % len(groups)]
             src_node_m = tree.lookup(src_abs)
-            if form in ("group_dst", "group_dst_name"):
+            if form in ("group_dst", "group_dst_name", "group_dst_name_none"):
                 dgroups = [g for g in groups]
                 dg = dgroups[(recv_i * 7 + 3) % len(dgroups)]
                 name = split(dst)[-1] if form == "group_dst_name" else (split(src_abs)[-1] if split(src_abs) else "x")
@@ -662,6 +663,8 @@ class CSession:
                     g.copy(mc[src_abs], dst, **kw)
                 elif form == "group_dst":
                     g.copy(src_abs, mc[dg] if dg != "/" else mc["/"], **kw)
+                elif form == "group_dst_name_none":  # the documented default of the keyword, spelled out
+                    g.copy(src_abs, mc[dg] if dg != "/" else mc["/"], name=None, **kw)
                 else:
                     g.copy(src_abs, mc[dg] if dg != "/" else mc["/"], name=name, **kw)
 
@@ -788,11 +791,20 @@ class CSession:
             if tree.lookup(dst_abs) is not None or any(s_.startswith(PREF) for s_ in split(dst_abs)):
                 return
 
+            src_m = tree.lookup(src)
+
             def fm(model):
+                if op[3] == "data" and src_m is not None and src_m.kind == "d":
+                    # a dataset node as source of the values (h5py idiom): a new dataset with the same value, no link
+                    model.tree.set(dst_abs, copy.deepcopy(src_m.value))
+                    return
                 raise OpFails("links and named types are not supported")
 
             def fr(ti, t):
                 import numpy as np
+                if op[3] == "data":
+                    t.mc.create_dataset(dst_abs, data=t.mc[src])
+                    return
                 v = t.mc[src] if op[3] == "node" else (t.mc.__wrapped__[src] if op[3] == "raw" else np.dtype("int32"))
                 t.mc[dst_abs] = v
 
